@@ -154,7 +154,7 @@ def ensure_runner(timeout=900):
     ok, out = ensure_makefile()
     if not ok:
         return False, out
-    rc, out = sh("make -j16 Model/Obs.vo", cwd=COQ, timeout=timeout)
+    rc, out = sh("make -j16 Model/Obs.vo Model/Conc.vo Model/Server.vo Model/Config.vo", cwd=COQ, timeout=timeout)
     if rc != 0:
         return False, out
     model_vos = [os.path.join(COQ, "Model", f) for f in os.listdir(os.path.join(COQ, "Model")) if f.endswith(".vo")]
@@ -376,22 +376,22 @@ SEQ_DEFAULT = [("mix", 1024, None, 40, 40), ("cas", 1024, None, 30, 40), ("cuts"
 
 PROPS = {
     "C01": {"seq": [("mix", 1024, None, 60, 40), ("wide", 1024, None, 40, 50), ("ttl", 1024, None, 30, 40),
-                    ("mix", 1024, 1000000, 30, 40), ("cuts", 256, None, 20, 30)], "relevant": "RM"},
+                    ("mix", 1024, 1000000, 30, 40), ("cuts", 256, None, 20, 30)], "relevant": "RMW"},
     "C02": {"seq": [("cas", 1024, None, 80, 50), ("mix", 1024, None, 30, 40), ("ttl", 1024, None, 30, 40),
-                    ("counter", 1024, None, 30, 40)], "relevant": "RM"},
+                    ("counter", 1024, None, 30, 40)], "relevant": "RMW"},
     "C03": {"seq": [("cas", 1024, None, 20, 30)], "conc": [("base", 500)], "relevant": "RMT"},
     "C04": {"seq": [("counter", 1024, None, 20, 30)], "conc": [("rmw", 500)], "relevant": "RMT",
             "known_classes": True},
     "C16": {"seq": [("policy", 1024, 200, 10, 30)], "conc": [("base", 250), ("rmw", 250)], "sweep": 300, "relevant": "T",
             "monitor_kinds": ["STUCK"]},
     "C05": {"seq": [("ttl", 1024, None, 80, 50), ("flush", 1024, None, 60, 50), ("mix", 1024, None, 30, 40)],
-            "relevant": "RM"},
+            "relevant": "RMW"},
     "C06": {"seq": [("mix", 1024, None, 60, 40), ("cas", 1024, None, 40, 40), ("ttl", 1024, None, 40, 40),
-                    ("flush", 1024, None, 20, 40), ("mix", 64, None, 20, 40)], "relevant": "RM"},
+                    ("flush", 1024, None, 20, 40), ("mix", 64, None, 20, 40)], "relevant": "RMW"},
     "C07": {"seq": [("counter", 1024, None, 100, 50), ("cas", 1024, None, 20, 40), ("ttl", 1024, None, 20, 40)],
-            "relevant": "RM"},
+            "relevant": "RMW"},
     "C08": {"seq": [("flush", 1024, None, 80, 50), ("ttl", 1024, None, 40, 50), ("cas", 1024, None, 30, 40),
-                    ("wide", 1024, None, 30, 40)], "relevant": "RM"},
+                    ("wide", 1024, None, 30, 40)], "relevant": "RMW"},
     "C09": {"seq": [("cuts", 1024, None, 60, 30), ("malformed", 1024, None, 60, 30), ("malformed", 100, None, 40, 30),
                     ("cuts", 64, None, 30, 30)],
             "conn": [("cuts", 1024, None, 30, 25), ("malformed", 100, None, 30, 25), ("malformed", 1024, None, 20, 25)],
@@ -403,10 +403,10 @@ PROPS = {
                     ("malformed", 100, None, 40, 30), ("wide", 1024, None, 30, 40)],
             "conn": [("mix", 1024, None, 20, 25)], "relevant": "RW", "monitor_prefix": "c11_"},
     "C12": {"seq": [("quiet", 1024, None, 60, 40), ("mix", 1024, None, 40, 40), ("malformed", 1024, None, 30, 30)],
-            "conn": [("quiet", 1024, None, 30, 25), ("mix", 1024, None, 30, 25)], "relevant": "RS"},
+            "conn": [("quiet", 1024, None, 30, 25), ("mix", 1024, None, 30, 25)], "relevant": "RSW"},
     "C13": {"seq": [("malformed", 100, None, 60, 30), ("malformed", 64, None, 40, 30), ("cuts", 100, None, 30, 30)],
             "conn": [("malformed", 100, None, 40, 25), ("malformed", 1024, None, 20, 25), ("cuts", 64, None, 20, 25)],
-            "relevant": "RSM"},
+            "relevant": "RSMW"},
     "C14": {"seq": [("policy", 1024, 100, 40, 60), ("policy", 1024, 300, 40, 60), ("policy", 1024, 30, 20, 60),
                     ("policy", 1024, 1000, 30, 60), ("counter", 1024, 120, 20, 50), ("flush", 1024, 200, 20, 50)],
             "conn": [("policy", 1024, 300, 15, 30)], "relevant": "UMR"},
@@ -419,7 +419,7 @@ PROPS = {
             "conn": [("cuts", 1024, None, 30, 25), ("malformed", 1024, None, 30, 25), ("mix", 1024, None, 20, 25)],
             "relevant": "RSM"},
     "C19": {"seq": [("quiet", 1024, None, 80, 50), ("mix", 1024, None, 30, 40), ("counter", 1024, None, 30, 40)],
-            "relevant": "RM"},
+            "relevant": "RMW"},
 }
 
 KINDS = {"R": "responses", "S": "connection status", "M": "store content", "U": "accounting", "T": "operation results under a schedule", "W": "frame monitor", "V": "which connections are served", "N": "connection not served"}
